@@ -378,8 +378,9 @@ func (in *Interp) convert(v Value, from, to types.Type) Value {
 
 // floatToInt implements Go/amd64 float64 -> integer conversion.
 // In range: truncation toward zero. Out of range / NaN (amd64):
-//   signed 64/32/16/8 via CVTTSD2SQ: 0x8000000000000000 then truncated to width
-//   unsigned 64: values >= 2^63 handled by subtracting 2^63; otherwise as signed
+//
+//	signed 64/32/16/8 via CVTTSD2SQ: 0x8000000000000000 then truncated to width
+//	unsigned 64: values >= 2^63 handled by subtracting 2^63; otherwise as signed
 func (in *Interp) floatToInt(x *Term, w int, signed bool) Value {
 	st := in.st
 	if x.IsConst() {
